@@ -70,6 +70,10 @@ CLAIMED['C14'] = dict(engine='E5', technique='Coq proof about a hand model of th
     text='Partial. Proved: the five cleaning passes equal a one-pass purge; inserting comments, PIs, title/desc/metadata, foreign-namespace elements and id-less symbols (each with arbitrary content, at arbitrary positions and depths, also inside each other) and adding foreign-namespace attributes leaves the cleaned tree unchanged; a tree without such content is returned unchanged. Not proved: bare wrapper groups, whitespace/XML declaration (parser level) and that the rest of the pipeline depends on the cleaned tree only - decided on every run by comparing convert(D) with convert(N(D)) up to gradient ids, defs order and the last digit of gradient numbers.',
     note='Noise.v validated on 700/12000 random trees; judge covers 200/4000 (D, N(D)) pairs with 1-8 insertions over 12 noise kinds.',
     design='§7 C14')
+CLAIMED['C16'] = dict(engine='E6', technique='Coq proof about the memoisation state machine and the sorted-key iteration of _inherit_attrib; inventory of caches / module state / hash-order constructs regenerated and pinned on every run; the lru_cache discipline observed on real conversions; multi-process judge over hash seeds, fresh vs long-lived processes and batch orders',
+    text='Partial. Proved: under clear-before-use (what _update_etree does) the shared lru_cache is invisible for any history of phases and earlier documents; _inherit_attrib does not depend on the order of the attribute map (sorted iteration; insertion sort shown order-free). Pinned: the only cache is _inherited_attrib, no module-level state is mutated at run time, the one sequence built from a set is used for membership only. Hash randomisation, process boundaries and the interpreter cannot be modelled: each run converts documents in fresh processes under 5-9 hash seeds and in permuted batches in one process and compares sha256 with the document converted alone.',
+    note='Runtime behaviour (hashing, processes) is exercised, not proved.',
+    design='§7 C16')
 PENDING = {}
 
 def main():
